@@ -8,6 +8,40 @@ sys.path.insert(0, os.path.dirname(os.path.abspath(__file__)))
 import vlib  # noqa: E402
 
 
+def replay(pid, mod, path):
+    """Re-execute a saved failing case against the current tree and re-validate it.
+    Module-specific fast path: pipes.<module>.replay(record) when the pipeline provides one (rebuilds the
+    pre-state through the public API, runs the one call, validates the recorded event with TLC).
+    Fallback: re-run the quick check (evidence redirected) and report whether the same signature recurs."""
+    import json
+    rec = json.load(open(path))
+    modname = rec.get("module", "").split("[")[0].lower()
+    try:
+        pipe = importlib.import_module("pipes." + modname)
+    except Exception:
+        pipe = None
+    if pipe is not None and hasattr(pipe, "replay"):
+        devs = pipe.replay(rec)
+        if devs:
+            print("VIOLATION property=%s replay=%s" % (pid, path))
+            for d in devs[:3]:
+                print("  still deviates: %s expected=%s" % (d["kind"], json.dumps(d.get("expected"))[:300]), file=sys.stderr)
+            return 1
+        print("replay: the recorded case conforms on the current tree", file=sys.stderr)
+        return 0
+    os.environ["VERIF_EVID"] = os.path.join(vlib.BUILD, "replay_evidence")
+    vlib.EVID = os.environ["VERIF_EVID"]
+    rep = vlib.Report(pid, "quick", getattr(mod, "LEVEL", "model_checking"))
+    mod.run("quick", rep)
+    ev = rec.get("event", {})
+    same = [d for d in rep.devs if d.get("kind") == rec.get("kind") and d.get("ev", {}).get("op") == ev.get("op")]
+    if same:
+        print("VIOLATION property=%s replay=%s" % (pid, path))
+        return 1
+    print("replay: no deviation with the recorded signature on the current tree", file=sys.stderr)
+    return 0
+
+
 def main():
     if len(sys.argv) < 2:
         print("usage: check.py <id> [--tier quick|thorough] [--replay path]", file=sys.stderr)
@@ -22,7 +56,7 @@ def main():
     try:
         mod = importlib.import_module("props." + pid)
         if a.replay:
-            return mod.replay(a.replay)
+            return replay(pid, mod, a.replay)
         rep = vlib.Report(pid, a.tier, getattr(mod, "LEVEL", "model_checking"))
         mod.run(a.tier, rep)
         return rep.finish()
